@@ -2,6 +2,7 @@ import XmpProofs.LoadPost
 import XmpProofs.LoadPostOblig
 import XmpProofs.LoadPostHdr
 import XmpProofs.LoadPostPlayer
+import XmpProofs.LoadPostSweep
 /-!
 # C03 — A successfully loaded module is structurally well-formed
 
@@ -28,6 +29,9 @@ Full statement: `load returns 0 → WF m`.  Proved here:
   loaders accept, the counts they leave pass the gate and need no clamp; pattern rows in range;
 * `C03_player_sub/sample/trusted`: the player's guards render out-of-range instrument / key /
   sub-instrument / sample references harmless;
+* `Sweep.nameCopies_bounded`, `Sweep.rowStores_guarded` (XmpProofs/LoadPostSweep.lean): every write into a
+  public name array in src/loaders/*.c whose byte count is syntactically visible leaves the array
+  terminated, and every hand-rolled store to a row count excludes 0 (generated site lists);
 * the sequence clauses at full strength, names, `C03_helpers_*`, `allocSites_known`.
 NOT proved (evaluated on real loads only): that the ~110 format loaders meet `LoaderOblig`
 beyond their header counts (pattern / instrument / sample bodies, `libxmp_load_sample` = C20).
